@@ -9,8 +9,6 @@ Section Bridge.
 Variable nm : list rune -> nat.          (* the number a rule name stands for in the model *)
 Variable ak : list rune -> nat.          (* the number of an action / predicate text *)
 
-Definition hexval (c : rune) : Z := if (48 <=? c) && (c <=? 57) then c - 48 else if (97 <=? c) && (c <=? 102) then c - 87 else c - 55.
-Definition octval (c : rune) : Z := c - 48.
 
 Definition sch (k : cchar) : schar :=
   match k with
@@ -167,7 +165,7 @@ Proof.
   - reflexivity.
   - reflexivity.
   - inversion Hw as [| | |? ? ? Hk Hs| | | | | | | | |]; subst. eapply lit_bridge. exact Hk.
-  - inversion Hw as [| | | |? ? ? ? Hcw Hci Hs| | | | | | | |]; subst. eapply class_bridge; eassumption.
+  - inversion Hw as [| | | |? ? ? ? Hcw Hci Hra Hs| | | | | | | |]; subst. eapply class_bridge; eassumption.
   - inversion Hw as [| | | | |? ? ? Hs1 Hwx Hs2| | | | | | |]; subst. apply IH; [lia|exact Hwx].
   - inversion Hw as [| | | | | |? ? ? Hs1 Hwx Hs2| | | | | |]; subst.
     rewrite bops_app, (IH x ltac:(lia) Hwx). cbn [ops_of]. rewrite somes_app. reflexivity.
@@ -199,7 +197,7 @@ Proof.
   destruct e as [s|id s|a s|dbl ks s|dbl neg items s|s1 x s2|s1 x s2|op x s|op s x|op s1 a s2|l|e1 l trail|];
     cbn [erase size] in *; try reflexivity.
   - destruct dbl; reflexivity.
-  - inversion Hw as [| | | |? ? ? ? Hcw Hci Hs| | | | | | | |]; subst. cbn [sx_ok].
+  - inversion Hw as [| | | |? ? ? ? Hcw Hci Hra Hs| | | | | | | |]; subst. cbn [sx_ok].
     destruct items as [|i items]; [cbn [class_wf] in Hcw; apply negb_true_iff in Hcw; subst neg; reflexivity|].
     cbn [map]. rewrite andb_false_r. reflexivity.
   - inversion Hw as [| | | | |? ? ? Hs1 Hwx Hs2| | | | | | |]; subst. cbn [sx_ok]. apply IH; [lia|exact Hwx].
